@@ -85,7 +85,7 @@ func vCheckC01(out *vOutcome) []vViol {
 	return vs
 }
 
-var vProfileC01 = vProfile{name: "c01", blockLoads: true, queueFull: 0, multiGPU: 15, optVariants: true, lateLoad: 100}
+var vProfileC01 = vProfile{name: "c01", blockLoads: true, queueFull: 0, multiGPU: 15, optVariants: true, lateLoad: 100, pingCancel: 60}
 
 func vRunSched(t *testing.T, prop string, profile vProfile, nQuick, nThorough int, rule string,
 	check func(h *vHistory, out *vOutcome) []vViol) {
@@ -133,6 +133,9 @@ func vRunSched(t *testing.T, prop string, profile vProfile, nQuick, nThorough in
 			rep.Eval(1)
 			for _, e := range out.Events {
 				evKinds[e.Kind]++
+				if e.Kind == "cancel" && e.Info == "in-ping" {
+					rep.Count("requests_cancelled_during_health_check", 1)
+				}
 			}
 			if out.Inconcl != "" {
 				rep.Inconclusive(fmt.Sprintf("history %d: %s", i, out.Inconcl))
@@ -171,6 +174,6 @@ func vRunSched(t *testing.T, prop string, profile vProfile, nQuick, nThorough in
 
 func TestVerifC01(t *testing.T) {
 	vRunSched(t, "C01", vProfileC01, 400, 40000,
-		"history i = PRNG(seed,'C01',i): 2-5 models, 1-8 client goroutines, 3-40 actions (requests with keep-alive in {0,0.2,1,5,20 ms,forever,nil}, holds, cancels before reply, scripted load ok/fail/block-until-cancel, explicit unloads, sleeps), MAX_LOADED 1-3/auto, ping failures, delays at 20 slog call sites and in mock Ping/Close/WaitUntilRunning, GOMAXPROCS in {1,2,4,8,16}. Oracle on the boundary event log: no Close between grant and release, at most one Close per runner, no grant after Close / of an unloaded runner. Non-trivial & distinct = distinct abstract order signature (collapsed sequence of grant/release/close/start/unload/fail/cancel/error kinds) of histories with more than 6 such transitions or with an explicit unload issued while a grant was outstanding",
+		"history i = PRNG(seed,'C01',i): 2-5 models, 1-8 client goroutines, 3-40 actions (requests with keep-alive in {0,0.2,1,5,20 ms,forever,nil}, holds, cancels before reply, clients that leave during the scheduler's health check of a loaded runner (cancel_in_ping; 6-10 % of histories are a dedicated scenario that must drain through the keep-alive timers alone), scripted load ok/fail/block-until-cancel, explicit unloads, sleeps), MAX_LOADED 1-3/auto, ping failures, delays at 20 slog call sites and in mock Ping/Close/WaitUntilRunning, GOMAXPROCS in {1,2,4,8,16}. Oracle on the boundary event log: no Close between grant and release, at most one Close per runner, no grant after Close / of an unloaded runner. Non-trivial & distinct = distinct abstract order signature (collapsed sequence of grant/release/close/start/unload/fail/cancel/error kinds) of histories with more than 6 such transitions or with an explicit unload issued while a grant was outstanding",
 		func(h *vHistory, out *vOutcome) []vViol { return vCheckC01(out) })
 }
